@@ -89,7 +89,7 @@ def run(m, chk):
         "floating-point convergence tests are reported), the Newton iterate is compared with both ends of the interval after its last update before it is returned (CLAMP), the result "
         "passes the minimum-distance filter and a sort, the curve and the point are not modified, the result depends on both. Global minimality, stationarity and non-emptiness are not decided."
     )
-    chk.decides = ["TERM", "CLAMP both sides", "must-pass-through(min-distance filter, sort)", "PURE", "DEP-MAY"]
+    chk.decides = ["TERM", "CLAMP both sides", "must-pass-through(min-distance filter, sort)", "PURE", "DEP-MAY", "ENDS-CANDIDATE (both ends of every piece are among the candidates)"]
     chk.not_decided = ["the returned distance is the global minimum", "stationarity of interior parameters", "non-emptiness"]
     q = P + "point_on_curve"
     term(r, chk, q)
@@ -142,8 +142,11 @@ def run(m, chk):
             chk.ob("FILTER", f"{q}: the result passes through: {name}", ok, loc=r.loc(ctx, R_.ast), detail="" if ok else f"{q}: `{seg(R_.ast, 40)}` is reached without the {name}: candidates that are not nearest (or unsorted parameters) are returned", func=q, construct=f"result skips {name}")
         v = ctx.ret_sites.get(R_.id)
         have = r.deep_dep(ctx, v, heap=ctx.ret_states[R_.id].heap) if v is not None else set()
-        need = r.srcs(ctx.fi, ["point", "curve.ctrlpoints", "curve.knotvector"])
+        need = r.srcs(ctx.fi, ["point", "curve.ctrlpoints", "curve.knotvector", "curve.weights"])
         miss = [w for w in need if not R.dep_has(have, w)]
         chk.ob("DEP-MAY", f"{q}: result depends on the point and the curve", not miss, loc=r.loc(ctx, R_.ast), detail="" if not miss else f"{q}: result ignores {r.fmt_deps(ctx.fi, miss)}", func=q, construct="result ignores an input")
+    from .extra import ends_candidate
+
+    ends_candidate(r, chk, P + "point_on_bezier", q)
     r.pure("PURE", q, ["point", "curve"])
     r.pure("PURE", P + "point_on_bezier", ["point", "bezier"])
